@@ -4,8 +4,10 @@ The path algebra (common prefix, strip/join round trip over all paths) is value-
 """
 import re
 
-from .. import thir
+from .. import thir, pathx
 from ..cfg import CFG, call_sites
+from ..facts import strip_generics
+from ..throttle import implies
 from ..origin import origins, VALUE_CALLS
 from ..report import Skip
 
@@ -65,6 +67,7 @@ def run(ctx):
                       "the sort dominates the join loop")
     ctx.rule("R17.3", "an event without paths contributes nothing (the is_empty edge reaches the next loop iteration without touching "
                       "any accumulator); kinds are taken only from Tag::FileEventKind")
+    ctx.rule("R17.5", "COMMON is inserted exactly when common_prefix() returned a path, with that path")
     ctx.rule("R17.4", "the line format writes one line per (event, path, kind) in nested loop order events > paths > kinds, and a "
                       "pathed event without kind yields exactly one `other:` line per path")
 
@@ -154,38 +157,90 @@ def run(ctx):
                 it_src.add(a.key())
             ctx.require(bool(sort_src & it_src), "R17.2", "sort-same-vec", "the joined sequence is the sorted vector", c.loc(t.line),
                         detail="%s vs %s" % (sorted(map(str, sort_src)), sorted(map(str, it_src))))
-        # entries pushed with the separator only between elements: i > 0
-        inner = [x for x in facts.children(c)]
-        sep = False
-        for x in inner:
-            for n in thir.find(thir.root(x), "bin"):
-                if n["op"] == "Gt" and thir.peel(n["b"]).get("i") == 0:
-                    sep = True
-        ctx.require(sep, "R17.2", "separator-between", "the separator is written only between entries (i > 0)", c.loc(c.line))
+        # entries pushed with the separator only between elements: path rule over the for_each closure
+        inner = [x for x in facts.children(c) if any(t.callee.is_("std::ffi::os_str::OsString::push", "std::ffi::OsString::push") for _, t in x.calls())]
+        if len(inner) != 1:
+            ctx.violation("R17.2", "floor:join-closure", "the closure appending entries to the joined string was not found (found %d)" % len(inner), c.loc(c.line))
+        else:
+            x = inner[0]
+            bad = []
+            n_first = n_later = 0
+            for q in pathx.Enum().paths(thir.root(x)):
+                pushes = [pathx.desc(e[2]["a"][1]) for e in q.ev if e[0] == "call" and strip_generics(e[1]).endswith("OsString::push")]
+                later = None
+                for e in q.ev:
+                    if e[0] == "branch":
+                        if implies(e[1], e[2], "i Gt 0", True) or implies(e[1], e[2], "i Ne 0", True) or implies(e[1], e[2], "i Eq 0", False):
+                            later = True
+                        elif implies(e[1], e[2], "i Gt 0", False) or implies(e[1], e[2], "i Ne 0", False) or implies(e[1], e[2], "i Eq 0", True):
+                            later = False
+                if later is True:
+                    n_later += 1
+                    if pushes != ["PATH_SEPARATOR", "path"]:
+                        bad.append("a later entry appends %s" % pushes)
+                elif later is False:
+                    n_first += 1
+                    if pushes != ["path"]:
+                        bad.append("the first entry appends %s" % pushes)
+                else:
+                    bad.append("position not tested: appends %s" % pushes)
+            ctx.require(not bad and n_first >= 1 and n_later >= 1, "R17.2", "separator-between",
+                        "each entry is appended exactly once, preceded by the separator for every entry but the first", x.loc(x.line),
+                        detail="; ".join(bad), fail="the join of a variable's entries is wrong: " + "; ".join(bad))
 
-    # ---- R17.3 skip rules
-    cfg = CFG(f)
-    emp = [(bi, t) for bi, t in call_sites(f, "alloc::vec::Vec::is_empty") if "PathBuf" in (t.callee.full or "") or True]
-    emp = [(bi, t) for bi, t in emp if t.mac == 0]
-    ctx.floor("R17.3", "paths.is_empty() test", len(emp), 1)
-    nexts = [bi for bi, t in call_sites(f, "core::iter::traits::iterator::Iterator::next")]
-    acc = call_sites(f, "core::iter::traits::collect::Extend::extend")
-    ctx.floor("R17.3", "accumulator extend sites", len(acc), 3)
-    for bi, t in emp[:1]:
-        sw = f.blocks[t.target].term
-        if sw.kind != "switch":
-            ctx.incomplete("R17.3", "no-path-skip", "is_empty() result is not branched on directly", f.loc(t.line))
+    # ---- R17.3 skip rules (THIR paths of the per-event loop)
+    en = pathx.Enum(interesting=lambda d: not any(strip_generics(d).startswith(x) for x in ("core::clone::Clone::clone", "core::convert::", "core::ops::deref", "core::fmt", "alloc::borrow::ToOwned")))
+    fps = en.paths(thir.root(f))
+    ev_iters = set()
+    for q in fps:
+        for e in q.ev:
+            if e[0] == "loop" and e[2] == "for events":
+                ev_iters |= set(e[1])
+    ctx.floor("R17.3", "per-event iteration paths", len(ev_iters), 2)
+    n_skip = n_take = 0
+    for it in ev_iters:
+        empty = None
+        for e in it:
+            if e[0] == "branch":
+                if implies(e[1], e[2], "Vec::is_empty(paths)", True):
+                    empty = True
+                elif implies(e[1], e[2], "Vec::is_empty(paths)", False):
+                    empty = False
+        ext = [pathx.desc(e[2]["a"][0]) for e in it if e[0] == "call" and strip_generics(e[1]).endswith("Extend::extend")]
+        inner = [e for e in it if e[0] == "loop"]
+        inner_ext = [strip_generics(x[1]).split("::")[-1] for e in inner for itx in e[1] for x in itx if x[0] == "call"]
+        brk = any(e == ("loop-break",) for e in it)
+        ctx.require(not brk, "R17.3", "no-early-stop:" + str(empty), "no event ends the summary loop early", f.loc(f.line),
+                    fail="the per-event loop of summarise_events_to_env stops at %s: later events are not summarised" % ("an event without paths" if empty else "an event"))
+        if empty is True:
+            n_skip += 1
+            ctx.require(not ext and not inner, "R17.3", "no-path-skip", "an event without paths reaches the next iteration without extending any accumulator", f.loc(f.line),
+                        fail="an event without paths contributes to the summary")
+        elif empty is False:
+            n_take += 1
+            ctx.require(ext == ["all_trunks"] and len(inner) == 1 and inner_ext == ["entry", "or_insert_with", "extend"], "R17.3", "pathed-contributes",
+                        "a pathed event adds its trunks to the common-prefix input and its paths to the bucket of each of its kinds", f.loc(f.line),
+                        detail="%s / %s" % (ext, inner_ext), fail="a pathed event no longer feeds both the common-prefix input and its kinds' buckets (%s / %s)" % (ext, inner_ext))
+        else:
+            ctx.violation("R17.3", "paths-tested", "an iteration does not test whether the event has paths", f.loc(f.line))
+    ctx.require(n_skip >= 1 and n_take >= 1, "R17.3", "both-classes", "both event classes (with / without paths) occur", f.loc(f.line))
+    # COMMON is set exactly when a common prefix exists
+    n_c = 0
+    for q in fps:
+        some = None
+        for e in q.ev:
+            if e[0] == "iflet" and e[1] == "common_path":
+                some = e[3] if "Some" in e[2] else (not e[3])
+        ins = [[pathx.desc(a) for a in e[2]["a"]] for e in q.ev if e[0] == "call" and strip_generics(e[1]).endswith("HashMap::insert")]
+        if some is None:
             continue
-        true_t = sw.otherwise
-        reach = cfg.reachable_from(true_t, avoid=nexts)
-        touched = [b2 for b2, _ in acc if b2 in reach]
-        ctx.require(not touched, "R17.3", "no-path-skip",
-                    "an event without paths reaches the next iteration without extending any accumulator", f.loc(t.line),
-                    fail="an event without paths contributes to the summary")
-        # and the false edge does reach them
-        false_t = [tt for v, tt in sw.cases if v == 0]
-        ctx.require(bool(false_t) and any(b2 in cfg.reachable_from(false_t[0], avoid=nexts[:1]) for b2, _ in acc), "R17.3",
-                    "pathed-contributes", "a pathed event reaches the accumulators", f.loc(t.line))
+        n_c += 1
+        if some:
+            ctx.require(ins == [["res", "'COMMON'", "PathBuf::into_os_string(common_path)"]], "R17.5", "common-set", "COMMON is set to the common path when there is one",
+                        f.loc(f.line), detail=str(ins), fail="COMMON is not set to the common prefix (%s)" % ins)
+        else:
+            ctx.require(not ins, "R17.5", "common-absent", "no COMMON without a common path", f.loc(f.line), detail=str(ins))
+    ctx.floor("R17.5", "paths deciding COMMON", n_c, 2)
     # kinds only from Tag::FileEventKind
     fm = [c for c in facts.children(f) if c.thir and c.thir["params"][1:] and c.thir["params"][1]["ty"].endswith("event::Tag")]
     if len(fm) != 1:
